@@ -310,13 +310,22 @@ pub fn run_path_new(ident: &str, module: &str, table: &[(String, String)], plain
     let i = leak(ident);
     let m = leak(module);
     let tb: Vec<(&'static str, &'static str)> = table.iter().map(|(a, b)| (leak(a), leak(b))).collect();
-    let res = catch_unwind(AssertUnwindSafe(|| {
+    // every third call runs on a fresh thread: whatever per-thread state the implementation keeps is then in its initial
+    // condition (the others see the state left by all earlier calls)
+    static CALLS: std::sync::atomic::AtomicU64 = std::sync::atomic::AtomicU64::new(0);
+    let fresh = CALLS.fetch_add(1, std::sync::atomic::Ordering::Relaxed) % 3 == 0;
+    let call = move || {
         if plain {
             Path::new(i, m)
         } else {
             Path::new_with_replace(i, m, &tb)
         }
-    }));
+    };
+    let res = if fresh {
+        std::thread::spawn(move || catch_unwind(AssertUnwindSafe(call))).join().unwrap_or_else(|e| Err(e))
+    } else {
+        catch_unwind(AssertUnwindSafe(call))
+    };
     let obs = match res {
         Err(_) => "panic".to_string(),
         Ok(p) => format!("ok {}", observe_path(&p)),
